@@ -1,5 +1,6 @@
 import Driver.Util
 import ScenicModel.Model.Choose
+import ScenicModel.Model.ChooseSelect
 import ScenicModel.Gen.Choose
 /-!
 Line protocol for the C19 model (uses the *generated* `Gen.chooseConfig`).
@@ -142,6 +143,22 @@ def parseRats : List String → Option (List Rat)
     let r ← parseRats ss
     some (q :: r)
 
+def parseOpts : List String → Option (List (Int × Rat))
+  | [] => some []
+  | v :: w :: rest => do
+    let z ← v.toInt?
+    let q ← parseRat w
+    let r ← parseOpts rest
+    some ((z, q) :: r)
+  | _ => none
+
+def showPick : Pick Int → String
+  | .picked z => s!"picked {z}"
+  | .deadlock => "deadlock"
+  | .emptyDomain => "empty"
+  | .negWeight => "neg"
+  | .crash => "crash"
+
 def handle : List String → String
   | "prog" :: t0 :: ts =>
     match t0.toNat?, parseStmts (ts.length + 1) ts with
@@ -151,9 +168,15 @@ def handle : List String → String
     match parseRat u, parseRats ws with
     | some q, some w => s!"ok {choicesIndex w q}"
     | _, _ => "bad-cidx"
+  | "osel" :: u :: ts =>
+    -- `Options({v: w, …})` constructed and sampled with raw uniform value `u`, on the generated constants
+    match parseRat u, parseOpts ts with
+    | some q, some xs => "ok " ++ showPick (optionsSelect Scenic.Gen.chooseConfig Scenic.Gen.selectConfig xs q)
+    | _, _ => "bad-osel"
   | ["config"] =>
     let c := Scenic.Gen.chooseConfig
-    s!"ok {c.defaultWeight} {c.shortcutLen} {c.shortcutIdx} {c.dropZero} {c.copyOperand}"
+    let s := Scenic.Gen.selectConfig
+    s!"ok {c.defaultWeight} {c.shortcutLen} {c.shortcutIdx} {c.dropZero} {c.copyOperand} {s.highOff} {s.selLow} {s.rangeOff} {s.takeIdx}"
   | _ => "bad-op"
 
 end Driver.C19
